@@ -1,7 +1,7 @@
 (** * Extract.v — the single extraction file.  [ExtrOcamlBasic] only; [Z], [positive],
     [N] and [nat] stay inductive.  No [Extract Constant]. *)
 From Coq Require Import ZArith List Extraction ExtrOcamlBasic.
-From HPBF Require Import Cell IO BF Expr Inplace IR BC Parse Machines Tape.
+From HPBF Require Import Cell IO BF Expr Inplace IR BC Parse Machines Tape SmallVec.
 Extraction Language OCaml.
 Extraction "extract/model.ml"
   Cell.wadd Cell.wmul Cell.wneg Cell.wand Cell.wshr Cell.wshl Cell.tz Cell.is_odd
@@ -18,4 +18,5 @@ Extraction "extract/model.ml"
   BC.bc_run
   Parse.parse
   Machines.bf_machine_run Machines.ir_machine_run Machines.bf_step Machines.cfg_equiv Machines.cert_ok Machines.bf_cfg_after
-  Tape.t_run Tape.rust_policy Tape.rtape0 Tape.s_run Tape.spec0 Tape.all_match Tape.ops_small.
+  Tape.t_run Tape.rust_policy Tape.rtape0 Tape.s_run Tape.spec0 Tape.all_match Tape.ops_small
+  SmallVec.sv_run SmallVec.sstate0 SmallVec.sv_final.
